@@ -17,7 +17,7 @@ void World::violation(const std::string &prop_in, const std::string &rule_in, co
 	std::string prop = prop_in, rule = rule_in;
 	// containment profile: what the reference model expects for healthy peers *is* the property; keep the originating rule visible
 	std::string rl = plan.hdr.gets("relabel");
-	if (!rl.empty() && (prop == "C01" || prop == "C02" || prop == "C03" || prop == "C04" || prop == "C05" || prop == "C14" || (rl == "C15" && (prop == "C07" || prop == "C10" || prop == "C12" || prop == "C13" || prop == "C16" || prop == "C08" || prop == "C11")))) { rule = prop + ":" + rule; prop = rl; }
+	if (!rl.empty() && (prop == "C01" || prop == "C02" || prop == "C03" || prop == "C04" || prop == "C05" || prop == "C14" || (rl == "C20" && prop == "C08") || (rl == "C15" && (prop == "C07" || prop == "C10" || prop == "C12" || prop == "C13" || prop == "C16" || prop == "C08" || prop == "C11")))) { rule = prop + ":" + rule; prop = rl; }
 	res.violated = true; res.v.prop = prop; res.v.rule = rule; res.v.detail = detail;
 	finish(0);
 	bail();
@@ -602,6 +602,14 @@ void World::check_idle_baseline() {
 	std::string bp = plan.hdr.gets("baseprop", "C07");
 	std::string leaked;
 	{ int n = 0; for (auto &b : g_arena.blocks) if (b.live && b.seq > base_last_seq) { if (n++ < 6) leaked += " #" + std::to_string(b.seq) + "(" + std::to_string(b.size) + "B)"; } if (n > 6) leaked += " ..."; }
+	// a password change replaces one item of the in-memory credential database for good: per change three blocks (item, key, value) may differ from the start-up baseline
+	size_t nchg = pw_changes.size();   // an attempt that failed and was rolled back also re-creates the item's key
+	if (nchg > 0) {
+		long db = (long)g_arena.live_blocks - (long)base_live_blocks, dy = (long)g_arena.live_bytes - (long)base_live_bytes;
+		if (db < 0 || db > 0 || dy > (long)(nchg * 200) || dy < -(long)(nchg * 200))
+			violation(bp, "memory-not-reclaimed", "allocator has " + std::to_string(g_arena.live_blocks) + " live blocks / " + std::to_string(g_arena.live_bytes) + " bytes with no connection left after " + std::to_string(nchg) + " password changes; baseline " + std::to_string(base_live_blocks) + " / " + std::to_string(base_live_bytes) + ";" + leaked);
+		probe("baseline_after_password_change");
+	} else
 	if (cjet_get_alloc_size && cjet_get_alloc_size() != base_alloc)
 		violation(bp, "heap-not-at-baseline", "accounted heap is " + std::to_string(cjet_get_alloc_size()) + " bytes with no connection left, idle baseline was " + std::to_string(base_alloc) + "; live allocations made since:" + leaked);
 	if (get_number_of_peers && get_number_of_peers() != base_peers)
@@ -614,7 +622,7 @@ void World::check_idle_baseline() {
 		}
 		if (k.kind == FD_TIMER && k.armed) violation(bp, "timer-still-armed", "a timer is still armed with no connection left");
 	}
-	if (g_arena.live_blocks != base_live_blocks || g_arena.live_bytes != base_live_bytes) {
+	if (nchg == 0 && (g_arena.live_blocks != base_live_blocks || g_arena.live_bytes != base_live_bytes)) {
 		std::string which;
 		int n = 0;
 		for (auto &b : g_arena.blocks) if (b.live && b.seq > 0) { if (n++ < 3 && b.seq > base_live_blocks) which += " #" + std::to_string(b.seq) + "(" + std::to_string(b.size) + "B)"; }
